@@ -158,6 +158,9 @@ func (s *StrategyChoiceModule) set(interest *spec.Interest, pitToken []byte, inF
 			s.manager.sendResponse(response, interest, pitToken, inFace)
 			return
 		}
+		// Store the version in its canonical (shortest) form: the forwarding threads look the
+		// strategy up by this exact name
+		params.Strategy.Name[len(s.strategyPrefix)+1] = enc.NewVersionComponent(uint64(strategyVersion))
 	} else {
 		// Add missing version information to strategy name
 		params.Strategy.Name = append(params.Strategy.Name, enc.NewVersionComponent(strategyVersion))
